@@ -33,6 +33,10 @@ var c08Archs = []c08Arch{
 	{Name: "include-helper", Text: "  helper\n\n\n", Include: true},
 	{Name: "uses-include", Text: "##!> include helper2\nown\n"},
 	{Name: "chain1-of-previous-rule", Text: "second\nlink\n", OfPrev: true},
+	{Name: "include-except-of-helper2", Text: "##!> include-except helper2 helperx\nmine\n"},
+	{Name: "include-helper2-with-suffix-pairs", Text: "##!> include helper2 -- x y\n"},
+	{Name: "cmdline-marked-words", Text: "##!> cmdline unix\ncurl@\nwget~\n##!<\n"},
+	{Name: "cmdline-bare-words", Text: "##!> cmdline unix\ncurl\nwget@\n##!<\n"},
 }
 
 type c08File struct {
@@ -49,7 +53,7 @@ type c08Tree struct {
 }
 
 func c08Build(sel []int) c08Tree {
-	t := core.Tree{"regex-assembly/toolchain.yaml": c01Yaml, "regex-assembly/include/helper2.ra": "##! Please refer to the documentation at\n##! https://coreruleset.org/docs/development/regex_assembly/.\n\n##!> define d leak\nxx\n", "regex-assembly/exclude/": ""}
+	t := core.Tree{"regex-assembly/toolchain.yaml": c01Yaml, "regex-assembly/include/helper2.ra": "##! Please refer to the documentation at\n##! https://coreruleset.org/docs/development/regex_assembly/.\n\n##!> define d leak\nxx\n", "regex-assembly/exclude/helperx.ra": "##! Please refer to the documentation at\n##! https://coreruleset.org/docs/development/regex_assembly/.\n\nxx\n"}
 	var rules []ruleSpec
 	var files []c08File
 	for i, a := range sel {
@@ -123,6 +127,7 @@ func compareChunks(s string) []string {
 }
 
 func C08(r *core.Run) {
+	r.CLIOnly = true
 	dir := ""
 	if !r.IsWorker() {
 		dir = core.Scratch("c08")
